@@ -7,7 +7,7 @@
    Not shown here (correspondence run only): that the serialisers print these values faithfully,
    JSON / SARIF well-formedness, byte identity of repeated real runs. *)
 From Coq Require Import NArith List Bool Permutation Sorted.
-From SG Require Import Report.Summary Report.Stats Report.Escape Report.Uri Report.Proofs_C20.
+From SG Require Import Report.Summary Report.Stats Report.Escape Report.Uri Report.Roots Report.Proofs_C20 Report.Proofs_Roots.
 Import ListNotations.
 Open Scope N_scope.
 
@@ -66,13 +66,56 @@ Theorem C20_totals_are_sums : forall files : list fstat,
 Proof. exact project_totals_sums. Qed.
 Print Assumptions C20_totals_are_sums.
 
+(* the Total Lines / Code / Comments / Blanks cards of check --format html are the sums of the
+   per-file counts: structure results (synthetic counts) do not take part (D75 repaired) *)
 Theorem C20_html_totals_are_sums : forall rs : list result,
-  html_aggregate rs = {| l_total := sumN (fun r => l_total (raw_stats r)) rs;
-                         l_code := sumN (fun r => l_code (raw_stats r)) rs;
-                         l_comment := sumN (fun r => l_comment (raw_stats r)) rs;
-                         l_blank := sumN (fun r => l_blank (raw_stats r)) rs |}.
+  html_aggregate rs = {| l_total := sumN (fun r => l_total (raw_stats r)) (filter is_content rs);
+                         l_code := sumN (fun r => l_code (raw_stats r)) (filter is_content rs);
+                         l_comment := sumN (fun r => l_comment (raw_stats r)) (filter is_content rs);
+                         l_blank := sumN (fun r => l_blank (raw_stats r)) (filter is_content rs) |}.
 Proof. exact html_aggregate_sums. Qed.
 Print Assumptions C20_html_totals_are_sums.
+
+(* ... hence equal to the project totals that stats summary and the --report-json side-car of the
+   same run print, whenever the content results stand for the scanned files *)
+Theorem C20_html_totals_agree_with_project_totals : forall rs files,
+  Permutation (map raw_stats (filter is_content rs)) (map f_stats files) ->
+  html_aggregate rs = {| l_total := t_lines (project_totals files); l_code := t_code (project_totals files);
+                         l_comment := t_comment (project_totals files); l_blank := t_blank (project_totals files) |}.
+Proof. exact html_totals_are_project_totals. Qed.
+Print Assumptions C20_html_totals_agree_with_project_totals.
+
+(* any number of structure results anywhere in the vector leaves the cards unchanged; before the
+   repair each one added its count (files / directories / depth) to Total Lines and Code *)
+Theorem C20_html_totals_ignore_structure_results : forall rs1 rs2 path st actual limit reason,
+  html_aggregate (rs1 ++ structure_result path st actual limit reason :: rs2) = html_aggregate (rs1 ++ rs2) /\
+  l_total (html_aggregate_v0 (rs1 ++ structure_result path st actual limit reason :: rs2)) =
+    l_total (html_aggregate_v0 (rs1 ++ rs2)) + actual.
+Proof. exact html_aggregate_structure_inert. Qed.
+Print Assumptions C20_html_totals_ignore_structure_results.
+
+(* D75 on the v0 model: four files (4 + 1 + 1 + 1 lines) and one FileCount result with actual = 3 *)
+Definition d75_file (p : str) (st : status) (n : N) : result :=
+  {| r_path := p; r_status := st; r_stats := {| l_total := n; l_code := n; l_comment := 0; l_blank := 0 |};
+     r_raw := Some {| l_total := n; l_code := n; l_comment := 0; l_blank := 0 |}; r_limit := 3; r_reason := None;
+     r_sugg := None; r_structure := false |}.
+Definition d75_results : list result :=
+  [ d75_file [111] Failed 4; d75_file [49] Passed 1; d75_file [50] Passed 1; d75_file [116] Passed 1;
+    structure_result [98;105;103] Failed 3 2 None ].
+Definition d75_files : list fstat :=
+  map (fun r => {| f_path := r_path r; f_lang := [82]; f_stats := raw_stats r |}) (filter is_content d75_results).
+
+Theorem C20_v0_refuted_html_totals : exists rs files,
+  Permutation (map raw_stats (filter is_content rs)) (map f_stats files) /\
+  l_total (html_aggregate_v0 rs) <> t_lines (project_totals files).
+Proof. exists d75_results, d75_files. split; [apply Permutation_refl | vm_compute; discriminate]. Qed.
+Print Assumptions C20_v0_refuted_html_totals.
+
+Example C20_repaired_on_the_d75_witness :
+  l_total (html_aggregate_v0 d75_results) = 10 /\ l_total (html_aggregate d75_results) = 7 /\
+  t_lines (project_totals d75_files) = 7 /\ s_total (summarize d75_results) = 5.
+Proof. vm_compute. repeat split. Qed.
+Print Assumptions C20_repaired_on_the_d75_witness.
 
 (* ---------------------------------------------------------------- breakdowns *)
 
@@ -90,6 +133,56 @@ Theorem C20_breakdown_sorted : forall key pi files,
   StronglySorted (fun a b => g_code b <= g_code a) (breakdown_v0 key pi files).
 Proof. exact breakdown_sorted_desc. Qed.
 Print Assumptions C20_breakdown_sorted.
+
+(* ---------------------------------------------------------------- overlapping scan roots *)
+
+(* the files of one run (Report/Roots.v): whatever roots are requested -- the same one twice, a
+   directory and something below it, in any order and any number -- no file of the tree is in the
+   list twice, so the totals are sums over distinct files and a breakdown of the list is a
+   partition of the files (D50 repaired: covered roots are not walked a second time) *)
+Theorem C20_roots_each_file_once : forall tree roots : list path, NoDup tree -> NoDup (run_files tree roots).
+Proof. exact run_files_nodup. Qed.
+Print Assumptions C20_roots_each_file_once.
+
+(* dropping the covered roots loses no file: the run is about exactly the files below some requested root *)
+Theorem C20_roots_same_files : forall tree roots f, In f (run_files tree roots) <-> In f (run_files_v0 tree roots).
+Proof. exact run_files_same_set. Qed.
+Print Assumptions C20_roots_same_files.
+
+Theorem C20_roots_files_are_the_covered_files : forall tree roots, NoDup tree ->
+  Permutation (run_files tree roots) (filter (fun f => existsb (fun r => covers r f) roots) tree).
+Proof. exact run_files_perm. Qed.
+Print Assumptions C20_roots_files_are_the_covered_files.
+
+Theorem C20_roots_kept_are_incomparable : forall roots, ForallOrdPairs incomparable (drop_covered roots).
+Proof. intro roots. exact (drop_aux_incomparable roots []). Qed.
+Print Assumptions C20_roots_kept_are_incomparable.
+
+(* before the repair every requested root was walked: the witness of the finding (. and src) *)
+Definition d50_tree : list path :=
+  [ [[116;111;112;46;114;115]]; [[115;114;99]; [98;105;103]; [111;118;101;114;46;114;115]];
+    [[115;114;99]; [98;105;103]; [111;110;101;46;114;115]]; [[115;114;99]; [98;105;103]; [116;119;111;46;114;115]] ].
+Definition d50_roots : list path := [ []; [[115;114;99]] ].
+
+Theorem C20_v0_refuted_overlapping_roots : exists tree roots, NoDup tree /\ ~ NoDup (run_files_v0 tree roots).
+Proof.
+  exists d50_tree, d50_roots. split.
+  - repeat (constructor; [cbn; intuition discriminate|]). constructor.
+  - vm_compute. intro H. inversion H as [|? ? _ H1]; subst. inversion H1 as [|? ? N _]; subst. apply N. cbn. tauto.
+Qed.
+Print Assumptions C20_v0_refuted_overlapping_roots.
+
+(* ... and was right exactly when no root covered another (executable classifier roots_overlap) *)
+Theorem C20_v0_roots_modulo_known : forall tree roots, NoDup tree -> ForallOrdPairs incomparable roots -> NoDup (run_files_v0 tree roots).
+Proof. exact no_overlap_v0_ok. Qed.
+Print Assumptions C20_v0_roots_modulo_known.
+
+Example C20_repaired_on_the_d50_witness :
+  length (run_files_v0 d50_tree d50_roots) = 7%nat /\ length (run_files d50_tree d50_roots) = 4%nat /\
+  roots_overlap d50_roots = true /\ roots_overlap [ [[115;114;99]]; [[108;105;98]] ] = false /\
+  drop_covered [ [[115;114;99]]; []; [[115;114;99]]; [] ] = [ [] ].
+Proof. vm_compute. repeat split. Qed.
+Print Assumptions C20_repaired_on_the_d50_witness.
 
 (* ---------------------------------------------------------------- check and stats *)
 
